@@ -1,5 +1,6 @@
 import TsVerif.Common.IO
 import TsVerif.C20.Judge
+import TsVerif.C20.Props
 /-!
 Driver for C20.  Protocol (hex = UTF-8 bytes in hex, `-` = empty):
 ```
@@ -110,8 +111,10 @@ def runCase (s : St) : String :=
   let wf := e0.all fun e => e.attrs.cst || sexpLike e.output
   let quoted := (e0 ++ e1).any fun e => (e.output.filter fun c => c == '\'' || c == '"').length ≥ 2
   let sxIn := (sexps.filter inFormatClass).length
+  let canon := (e0.filter fun e => decide (e.attrs = flagsOf s.os e.name e.attrsStr)).length
+  let actok := (s.acts.filter fun (_, _, a) => actOKb a).length
   let model := if c1 == "ok" then "" else s!" model1={hexOf u1}"
-  s!"{s.id} parse0={p0} parse1={p1} upd1={c1} upd2={c2} judge={j} n0={e0.length} n1={e1.length} attrs={attrs} wrong={wrong} delimlike={delimLike} suffixed={if (firstSuffix (splitIncl s.orig)).isSome then 1 else 0} wrote={if s.wrote1 then 1 else 0} filter={s.filter} carried={(e0.filter fun e => !flt e.name).length} carriedcst={(e0.filter fun e => !flt e.name && e.attrs.cst).length} wf={if wf then 1 else 0} sx={sexps.length} sxclass={sxIn} quoted={if quoted then 1 else 0} crlf={if s.orig.contains '\r' then 1 else 0} bytes={s.orig.length}{model}"
+  s!"{s.id} parse0={p0} parse1={p1} upd1={c1} upd2={c2} judge={j} n0={e0.length} n1={e1.length} attrs={attrs} wrong={wrong} delimlike={delimLike} suffixed={if (firstSuffix (splitIncl s.orig)).isSome then 1 else 0} wrote={if s.wrote1 then 1 else 0} filter={s.filter} carried={(e0.filter fun e => !flt e.name).length} carriedcst={(e0.filter fun e => !flt e.name && e.attrs.cst).length} wf={if wf then 1 else 0} canon={canon} acts={s.acts.length} actok={actok} sx={sexps.length} sxclass={sxIn} quoted={if quoted then 1 else 0} crlf={if s.orig.contains '\r' then 1 else 0} bytes={s.orig.length}{model}"
 
 def step (s : St) (line : String) : IO St := do
   match line.splitOn " " with
